@@ -348,6 +348,7 @@ namespace Pistache::Async
                 }
                 catch (const InternalRethrow& e)
                 {
+                    std::unique_lock<std::mutex> guard(chain_->mtx);
                     chain_->exc   = e.exc;
                     chain_->state = State::Rejected;
                     for (const auto& req : chain_->requests)
@@ -433,6 +434,7 @@ namespace Pistache::Async
                 void doReject(const std::shared_ptr<CoreT<T>>& core) override
                 {
                     reject_(core->exc);
+                    std::unique_lock<std::mutex> guard(this->chain_->mtx);
                     for (const auto& req : this->chain_->requests)
                     {
                         req->reject(this->chain_);
@@ -443,6 +445,7 @@ namespace Pistache::Async
                 void finishResolve(Ret&& ret) const
                 {
                     typedef typename std::decay<Ret>::type CleanRet;
+                    std::unique_lock<std::mutex> guard(this->chain_->mtx);
                     this->chain_->template construct<CleanRet>(std::forward<Ret>(ret));
                     for (const auto& req : this->chain_->requests)
                     {
@@ -478,6 +481,7 @@ namespace Pistache::Async
                 void doReject(const std::shared_ptr<CoreT<void>>& core) override
                 {
                     reject_(core->exc);
+                    std::unique_lock<std::mutex> guard(this->chain_->mtx);
                     for (const auto& req : this->chain_->requests)
                     {
                         req->reject(this->chain_);
@@ -488,6 +492,7 @@ namespace Pistache::Async
                 void finishResolve(Ret&& ret) const
                 {
                     typedef typename std::remove_reference<Ret>::type CleanRet;
+                    std::unique_lock<std::mutex> guard(this->chain_->mtx);
                     this->chain_->template construct<CleanRet>(std::forward<Ret>(ret));
                     for (const auto& req : this->chain_->requests)
                     {
@@ -609,6 +614,7 @@ namespace Pistache::Async
 
                     void operator()(const PromiseType& val)
                     {
+                        std::unique_lock<std::mutex> guard(chainCore->mtx);
                         chainCore->construct<PromiseType>(val);
                         for (const auto& req : chainCore->requests)
                         {
@@ -634,6 +640,7 @@ namespace Pistache::Async
                     promise.then(std::move(chainer), [weakPtr](std::exception_ptr exc) {
                         if (auto core = weakPtr.lock())
                         {
+                            std::unique_lock<std::mutex> guard(core->mtx);
                             core->exc   = std::move(exc);
                             core->state = State::Rejected;
 
@@ -689,6 +696,7 @@ namespace Pistache::Async
 
                     void operator()(const PromiseType& val)
                     {
+                        std::unique_lock<std::mutex> guard(chainCore->mtx);
                         chainCore->construct<PromiseType>(val);
                         for (const auto& req : chainCore->requests)
                         {
@@ -732,7 +740,8 @@ namespace Pistache::Async
                 {
                     auto chainer = makeChainer(promise);
                     promise.then(std::move(chainer), [=](std::exception_ptr exc) {
-                        auto core   = this->chain_;
+                        auto core = this->chain_;
+                        std::unique_lock<std::mutex> guard(core->mtx);
                         core->exc   = std::move(exc);
                         core->state = State::Rejected;
 
